@@ -36,7 +36,7 @@ CLAIMED = {
 }
 
 CLAIMED.update({
-    "C07": ("proof", "Every function under contract (the whole extracted file: ~105 real functions of utils/const_fns.rs, datetime/mod.rs, timezone/mod.rs, timezone/rule.rs) is verified by Verus in exec mode, where each + - * / % cast, index, slice, unreachable!() and loop generates an obligation: no panic, no overflow with overflow checks on, no out-of-bounds, termination, for all inputs admitted by preconditions that are `true` or constructor-established type invariants. "
+    "C07": ("proof", "Every function under contract (the whole extracted file: ~130 real functions of utils/const_fns.rs, datetime/mod.rs, datetime/find.rs, timezone/mod.rs, timezone/rule.rs, parse/utils.rs, parse/tz_file.rs) is verified by Verus in exec mode, where each + - * / % cast, index, slice, unreachable!() and loop generates an obligation: no panic, no overflow with overflow checks on, no out-of-bounds, termination, for all inputs admitted by preconditions that are `true` or constructor-established type invariants. "
             "The local-time search (find_date_time with its lifted closure, DateTime::find / find_n, the result lists' push / new / data / count / is_exhaustive / unique / earliest / latest of the allocating list) is included, and of the TZif parser the cursor helpers read_exact / read_chunk_exact, parse_header, read_data_blocks and the control flow of parse_tz_file (for every input and all 32-bit header counts: no overflow in the block-size arithmetic, no out-of-bounds slicing; by-product: the six header counts decode big-endian in RFC 8536 order, the seven blocks are cut in file order with the RFC's sizes). NOT covered and excluded from the claim: the rest of both parsers (the decoder proper DataBlocks::parse - rendered external and unverified -, parse_footer, the TZ string parser), Display/format_date_time, TimeZone::{utc, fixed, from_tz_data, local, from_posix_tz} and TimeZoneSettings, TzAsciiStr::as_bytes/as_str, unique/earliest/latest of the result lists, allocation bounds, builds without overflow checks.", "5/C07",
             "This is a claim about the named function set only (coverage.functions_under_contract); the uncovered public operations are listed in coverage.extraction.not_under_contract. "),
     "C11": ("proof", "AlternateTime::new returns Ok exactly when both offsets are in (-25h, 26h), both times within +-7d and the three start/end relations never change sign over ALL integer years; each error kind names the first violated condition. Complete proof for all 9 notation pairs down to the calendar axioms: year classes and 21 witness years for Jn / n and mixed pairs; for Mm.w.d x Mm.w.d the finite core (all month / week / weekday / year-class combinations) is decided by computation inside Verus (assert by compute) and linked to the calendar by lemmas; the real check functions are proved equal to the decision procedures.", "5/C11, S.1",
@@ -51,7 +51,7 @@ CLAIMED.update({
 
 SEARCH_NOTE = ("Scope of the proof: every zone without a DST rule, and zones with a DST (Alternate) rule inside rule_scope = the rule's start/end instants strictly interleave in every year AND both candidate instants lie inside the rule evaluator's year range. Outside rule_scope (exactly the territory of the open findings below) only BOUNDED layers speak (never counted as proved); they also run as a second layer everywhere: thorough tier Kani/CBMC on the real find_date_time (<= 3 transitions without / <= 2 with one leap-second record; rule-only zone with six symbolic interleaving instants) and, every tier, a bounded concrete oracle comparison through the public API. Open known findings F3 (C05: non-interleaving accepted rule yields a duplicate result) and F4 (C06: zero-length segment, e.g. permanent DST, reported as a gap) - both in the DST-rule branch - are carved out of the probes and replayed on every run. "
                "Trusted in addition: extraction rules R8-R12 (lambda lifting of the get_time closure, enumerate/zip loops desugared to while loops, three iterator expressions abstracted behind contracts proved by complete Kani harnesses, push arguments let-bound); Kani 0.68 / CBMC 6.11; the parametricity argument of C17 (the ghost log is the result list of both list types). ")
-SEARCH_TECH = "contract-based deductive verification (Verus/Z3) of the real find_date_time, extracted mechanically on every run (zones without DST rule); bounded model checking (Kani/CBMC) and bounded oracle comparison as second layer and as stand-in outside the proof's scope"
+SEARCH_TECH = "contract-based deductive verification (Verus/Z3) of the real find_date_time, extracted mechanically on every run (zones without DST rule and zones with a strictly interleaving DST rule); bounded model checking (Kani/CBMC) and bounded oracle comparison as second layer and as stand-in outside the proof's scope"
 CLAIMED.update({
     "C05": ("proof", "PROOF for every zone without a DST rule (single type, table only, table + fixed rule, fixed rule only; any table length, any leap-second table, arbitrary offsets) and for every zone with a strictly interleaving DST rule (with or without table; candidates inside the evaluator's year range), for every searched date-time: the real find_date_time's pushed results are sound (each valid result carries the searched fields, the forward lookup - C03's relational spec - answers its type at its instant, instant + offset = searched civil time), free of duplicates, and complete whenever the search returns Ok (every instant whose lookup answer shows the searched time is reported). BOUNDED layers only for DST rules outside that scope (known findings F3, F5; F2's class).", "S.13", SEARCH_NOTE, SEARCH_TECH),
     "C06": ("proof", "PROOF for every zone without a DST rule and for zones with a strictly interleaving DST rule, for every searched date-time: each skipped result of the real find_date_time is the gap of a real table transition (both date-times at the transition's UTC instant g(T), with the local time types before / after, C14 invariant, g(T)+a <= searched time < g(T)+b; the coverage-ending last transition of a rule-less zone opens no gap) or, in a DST-rule zone, of a start/end instant of the rule after the table; every such gap (for rule instants: of the years y-1..y+1 the search looks at) is reported when the search returns Ok, and all results ascend by instant; unique/earliest/latest of the allocating list are under contract too (unique present exactly for a single valid result and nothing else). Not proved: 'exactly once'; that no rule instant of a year outside y-1..y+1 can hold the searched time in its gap (window argument, not formalised); unique/earliest/latest of the allocation-free list (bounded probe). BOUNDED layers only for DST rules outside the scope (known finding F4).", "S.13", SEARCH_NOTE, SEARCH_TECH),
